@@ -217,11 +217,12 @@ def fixed_cases(first):
          dict(op='B', h=2, nbytes=16, spec_err=0, spec_usage=32, nonlifo=True),
          dict(op='W', spec_err=0, n=None, spec_usage=0, nonlifo=True), dict(op='U', spec_err=0, spec_usage=0, nonlifo=True), dict(op='END')]
     cases.append((L, M, {}))
-    # F20: iget_varn with one sub-request spanning two records overruns the caller's buffer
+    # regression case for F20 (iget_varn with one sub-request spanning two records overran the caller's buffer;
+    # found by this check's guard zones, fixed in /repo by commit e413b55d)
     L = ['CASE %d 0' % (first + 1), 'G 0 5 0 1 1 0 128 7 n 0 0 1 0 0 2 8', 'W 1 0', 'END']
-    M = [dict(op='CASE', varn_multirec=True), dict(op='G', h=0, nbytes=128, spec_err=0, spec_usage=None, nonlifo=False),
+    M = [dict(op='CASE'), dict(op='G', h=0, nbytes=128, spec_err=0, spec_usage=None, nonlifo=False),
          dict(op='W', spec_err=0, n=1, spec_usage=None, nonlifo=False), dict(op='END')]
-    cases.append((L, M, dict(varn_multirec=True)))
+    cases.append((L, M, {}))
     # the swap-back exits: > 4096 bytes in place, auto hint: blocking put, iput + wait, iput + cancel
     L = ['CASE %d 0' % (first + 2), 'P 0 0 0 1 1 0 8192 2 a 0 0 1 0 2048', 'I 1 1 0 1 1 0 8192 2 a 0 0 1 2048 2048',
          'I 2 1 0 1 1 0 8192 4 a 0 0 1 0 1024', 'W 1 1', 'X 1 2', 'END']
@@ -353,7 +354,7 @@ def run_check(tier, seed):
         except BuildFailed as ex:
             V.broken_tie('harness c13_buf.c no longer compiles against the tree', str(ex)[-1500:])
             return V.finish()
-        ncases = 150 if tier == 'quick' else 1500
+        ncases = 400 if tier == "quick" else 3000
         lines, metas = [], []
         # unit: ncmpii_in_swapn on random byte strings
         nsw = 200 if tier == 'quick' else 3000
